@@ -218,8 +218,9 @@ def main(argv=None):
               wall_s=round(time.time() - t0, 2), violations=len(violations))
     # a --no-lean debug run never (over)writes the evidence file: it did not check the proofs
     write_json(os.path.join('/tmp', 'nolean-evidence-%s.json' % prop) if a.no_lean else os.path.join(VERIF, 'evidence', prop + '.json'), ev)
-    print('%s %s seed=%d: theorems %d/%d, cases %d (distinct non-trivial %d), corr-breaks %d, judged failures %d, %.1fs' % (
-        prop, a.tier, seed, lb['discharged'], lb['obligations'], n_eval, len(sigs), len(corr_bad), len(judged_bad), time.time() - t0))
+    print('%s %s seed=%d: theorems %d/%d, cases %d (distinct non-trivial %d), corr-breaks %d, judged failures %d%s, %.1fs' % (
+        prop, a.tier, seed, lb['discharged'], lb['obligations'], n_eval, len(sigs), len(corr_bad), len(judged_bad),
+        (' (%d of them the known finding)' % len(known_hits)) if known_hits else '', time.time() - t0))
     return 1 if violations else 0
 
 if __name__ == '__main__':
